@@ -369,7 +369,7 @@ def run(ctx):
         kvp_helpers = set()
         try:
             from . import roles as _roles
-            kvp_helpers = set(_roles.ib_paths(prog, kvp_fn).fn.get("inlined") or [])
+            kvp_helpers = set(_roles.ib_paths(prog, kvp_fn, transitive=True).fn.get("inlined") or [])     # the same view the C12/C14 path summaries use
         except Exception:
             pass
         if kvp_fn in c_ and all(x == kvp_fn or x in kvp_helpers for x in c_) and not sub14.get("C14.R6") and not sub14.get("*"):
